@@ -1,11 +1,12 @@
 #!/bin/bash
-# usage: mutate.sh <name> <file relative to src> <python-expr old> <new> -- checks...
+# usage: mutate.sh <name> <file relative to the repo root (src/cminx/... or cmake/...)> <python-expr old> <new> -- checks...
 # copies /repo/src to a scratch dir, applies one textual replacement, runs the given checks against it
 set -e
 name=$1; file=$2; old=$3; new=$4; shift 4
 d=$(mktemp -d /tmp/mut_XXXX)
 cp -r /repo/src $d/src
-/venv/bin/python - "$d/src/$file" "$old" "$new" <<'PY'
+cp -r /repo/cmake $d/cmake
+/venv/bin/python - "$d/$file" "$old" "$new" <<'PY'
 import sys
 p,old,new=sys.argv[1:4]
 s=open(p).read()
@@ -13,7 +14,7 @@ assert old in s, "pattern not found"
 open(p,'w').write(s.replace(old,new,1))
 PY
 for c in "$@"; do
-  out=$(CMINX_SRC=$d/src /verif/bin/check $c --tier quick 2>&1 | tail -1)
+  out=$(CMINX_SRC=$d/src CMINX_REPO=$d /verif/bin/check $c --tier quick 2>&1 | tail -1)
   echo "MUTANT $name $c: $out"
 done
 rm -rf $d
